@@ -19,6 +19,16 @@ pub static ZERO: Zero = Zero;
 
 pub const ENTRIES: [&str; 12] = ["write(&[])", "read(&mut [])", "write_slice(&[])", "read_slice(&mut [])", "write_obj([u8; 0])", "read_obj::<[u8; 0]>", "write_obj([u64; 0])", "read_obj::<[u32; 0]>", "read_volatile_from(.., 0)", "read_exact_volatile_from(.., 0)", "write_volatile_to(.., 0)", "write_all_volatile_to(.., 0)"];
 
+thread_local! {
+    /// which source / sink the stream entries use (0 = holds data, 1 = drained slice, 2 = cursor at its end)
+    static ENDPOINT: std::cell::Cell<u32> = const { std::cell::Cell::new(0) };
+}
+#[cfg(feature = "xen")]
+thread_local! {
+    static XEN_ARMED: std::cell::Cell<bool> = const { std::cell::Cell::new(false) };
+}
+pub const ENDPOINTS: [&str; 3] = ["", " [drained / full in-memory endpoint]", " [cursor at its end]"];
+
 /// Issue one zero-length request through the `Bytes` interface. `Ok(detail)` / `Err(error text)`.
 fn bytes_zero<A: Copy, T: Bytes<A>>(t: &T, at: A, entry: usize) -> Result<String, String>
 where
@@ -34,25 +44,59 @@ where
         5 => t.read_obj::<[u8; 0]>(at).map_err(e).map(|_| "[]".into()),
         6 => t.write_obj::<[u64; 0]>([], at).map_err(e).map(|()| "()".into()),
         7 => t.read_obj::<[u32; 0]>(at).map_err(e).map(|_| "[]".into()),
-        8 => {
+        8 | 9 => {
             let data = [1u8, 2, 3];
-            let mut s = &data[..];
-            t.read_volatile_from(at, &mut s, 0).map_err(e).and_then(|n| if n == 0 && s.len() == 3 { Ok("0".into()) } else { Err(format!("count {} / source advanced", n)) })
-        }
-        9 => {
-            let data = [1u8, 2, 3];
-            let mut s = &data[..];
-            t.read_exact_volatile_from(at, &mut s, 0).map_err(e).and_then(|()| if s.len() == 3 { Ok("()".into()) } else { Err("source advanced".into()) })
-        }
-        10 => {
-            let mut sink: Vec<u8> = vec![9];
-            t.write_volatile_to(at, &mut sink, 0).map_err(e).and_then(|n| if n == 0 && sink == [9] { Ok("0".into()) } else { Err(format!("count {} / sink changed", n)) })
+            let exact = entry == 9;
+            match ENDPOINT.with(|v| v.get()) {
+                0 => {
+                    let mut s = &data[..];
+                    let r = if exact { t.read_exact_volatile_from(at, &mut s, 0).map(|()| 0) } else { t.read_volatile_from(at, &mut s, 0) };
+                    r.map_err(e).and_then(|n| if n == 0 && s.len() == 3 { Ok("0".into()) } else { Err(format!("count {} / source advanced", n)) })
+                }
+                1 => {
+                    // a source that earlier transfers have drained
+                    let mut s = &data[3..];
+                    let r = if exact { t.read_exact_volatile_from(at, &mut s, 0).map(|()| 0) } else { t.read_volatile_from(at, &mut s, 0) };
+                    r.map_err(e).and_then(|n| if n == 0 { Ok("0".into()) } else { Err(format!("count {}", n)) })
+                }
+                _ => {
+                    let mut c = std::io::Cursor::new(&data[..]);
+                    c.set_position(3 + (at_hint() % 3));
+                    let before = c.position();
+                    let r = if exact { t.read_exact_volatile_from(at, &mut c, 0).map(|()| 0) } else { t.read_volatile_from(at, &mut c, 0) };
+                    r.map_err(e).and_then(|n| if n == 0 && c.position() == before { Ok("0".into()) } else { Err(format!("count {} / cursor moved", n)) })
+                }
+            }
         }
         _ => {
-            let mut sink: Vec<u8> = vec![9];
-            t.write_all_volatile_to(at, &mut sink, 0).map_err(e).and_then(|()| if sink == [9] { Ok("()".into()) } else { Err("sink changed".into()) })
+            let exact = entry != 10;
+            match ENDPOINT.with(|v| v.get()) {
+                0 => {
+                    let mut sink: Vec<u8> = vec![9];
+                    let r = if exact { t.write_all_volatile_to(at, &mut sink, 0).map(|()| 0) } else { t.write_volatile_to(at, &mut sink, 0) };
+                    r.map_err(e).and_then(|n| if n == 0 && sink == [9] { Ok("0".into()) } else { Err(format!("count {} / sink changed", n)) })
+                }
+                1 => {
+                    // a sink with no room left
+                    let mut backing = [7u8; 2];
+                    let mut sink: &mut [u8] = &mut backing[2..];
+                    let r = if exact { t.write_all_volatile_to(at, &mut sink, 0).map(|()| 0) } else { t.write_volatile_to(at, &mut sink, 0) };
+                    r.map_err(e).and_then(|n| if n == 0 { Ok("0".into()) } else { Err(format!("count {}", n)) })
+                }
+                _ => {
+                    let mut backing = [7u8; 2];
+                    let mut c = std::io::Cursor::new(&mut backing[..]);
+                    c.set_position(2 + (at_hint() % 3));
+                    let r = if exact { t.write_all_volatile_to(at, &mut c, 0).map(|()| 0) } else { t.write_volatile_to(at, &mut c, 0) };
+                    r.map_err(e).and_then(|n| if n == 0 { Ok("0".into()) } else { Err(format!("count {}", n)) })
+                }
+            }
         }
     }
+}
+
+fn at_hint() -> u64 {
+    ENDPOINT.with(|v| v.get()) as u64
 }
 
 /// copies of zero elements / of zero-sized elements on a slice
@@ -234,6 +278,20 @@ impl Scenario for Zero {
                 });
                 log.push("(another actor writes a byte)".into());
             }
+            let endpoint = cx().a(3);
+            ENDPOINT.with(|v| v.set(endpoint));
+            // a request that names no bytes needs no mapping: on Xen regions, now and then, any map
+            // request (ioctl or mmap) it made would fail
+            #[cfg(feature = "xen")]
+            if xw.is_some() && cx().a(3) == 0 {
+                XEN_ARMED.with(|v| v.set(true));
+                if cx().a(2) == 0 {
+                    let k = cx().sys.xen.as_ref().unwrap().map_calls;
+                    cx().sys.xen.as_mut().unwrap().fail_map_at = Some(k);
+                } else {
+                    cx().sys.fail_mmap_at = Some((cx().sys.mmap_calls, libc::ENOMEM));
+                }
+            }
             let mem_before = snapshot(sptr, slen, &gw);
             let bm_before = bitmap_state(&sbitmap, &gw);
             #[cfg(feature = "xen")]
@@ -350,7 +408,18 @@ impl Scenario for Zero {
             let op_name = if copy_form { desc.split_once("].").map(|x| x.1.to_string()).unwrap_or(op_name) } else { op_name };
             let addr_class = if valid { "valid address" } else { "address not valid for a non-empty access" };
             let fp = format!("layer={} op={} {}", layer_name, op_name, addr_class);
-            log.push(format!("{} -> {:?}", desc, res_str(&res)));
+            #[cfg(feature = "xen")]
+            let armed = {
+                let a = XEN_ARMED.with(|v| v.replace(false));
+                cx().sys.fail_mmap_at = None;
+                if let Some(x) = cx().sys.xen.as_mut() {
+                    x.fail_map_at = None;
+                }
+                a
+            };
+            #[cfg(not(feature = "xen"))]
+            let armed = false;
+            log.push(format!("{}{}{} -> {:?}", desc, if entry_is_stream { ENDPOINTS[endpoint as usize] } else { "" }, if armed { " [any map request would fail]" } else { "" }, res_str(&res)));
             let line = log.last().unwrap().clone();
             match &res {
                 OpOutcome::Panic(m) => {
